@@ -19,115 +19,118 @@ def expectedProgram : Program := {
     .ifStateEq 2 [.loadModule], .sendInitEcho],
   recvLoopIsStandard := true,
   closeService := [.writeMeta],
-  fmCreateSidFolder := [.mkdir],
-  fmWriteConfig := [.returnIfNoDir, .openTrunc "config.json", .write "config.json"],
-  fmWriteMeta := [.returnIfNoDir, .openTrunc "service_meta", .write "service_meta"],
-  fmWriteEdb := [.returnIfNoDir, .openTrunc "edb", .write "edb"],
+  fmCreateSidFolder := [.mkdirExistOk],
+  fmWriteConfig := [.returnIfNoDir, .openTmp "config.json", .writeTmp "config.json", .replace "config.json"],
+  fmWriteMeta := [.returnIfNoDir, .openTmp "service_meta", .writeTmp "service_meta", .replace "service_meta"],
+  fmWriteEdb := [.returnIfNoDir, .openTmp "edb", .writeTmp "edb", .replace "edb"],
   fmReadConfig := [.readFile "config.json"],
   fmReadMeta := [.readFile "service_meta"],
   fmReadEdb := [.readFile "edb"],
-  fmCheckDir := [.retDirExists],
+  fmCheckDir := [.retAllExist ["config.json", "service_meta"]],
   mgrCreate := [.construct, .ifRegistered [.sendControl, .awaitPrevClosed], .locked [.register], .spawnCleanup,
     .serve, .awaitCleanup],
   mgrCleanup := [.awaitClosed, .locked [.sleep, .closeService, .delEntry]] }
 
 abbrev P := expectedProgram
 
-/-! ### the three-state reference machine (not-configured → configured → ready) -/
-
-structure Spec3 where
-  st : Nat := 0
-  cfg : Option Cfg := none
-  edb : Option Edb := none
-  alive : Bool := false
-  deriving DecidableEq, Repr
-
-def Spec3.die (t : Spec3) : Spec3 := { t with alive := false }
-
-def spec3Msg (t : Spec3) : Msg → Spec3 × List Out
-  | .foreignSid | .noType | .noSid => (t, [])
-  | .unknownType => (t.die, [.closed])
-  | .config c =>
-    if t.st ≠ 0 then (t.die, [.refused "config", .closed]) else
-    match c with
-    | none => (t.die, [.closed])
-    | some v => ({ t with st := 1, cfg := some v }, [.ok "config"])
-  | .upload e =>
-    if t.st ≠ 1 then (t.die, [.refused "upload_edb", .closed])
-    else ({ t with st := 2, edb := some e }, [.ok "upload_edb"])
-  | .search tk =>
-    if t.st ≠ 2 then (t.die, [.refused "result", .closed]) else
-    match tk, t.cfg, t.edb with
-    | some k, some c, some e => (t, [.result c e k])
-    | _, _, _ => (t.die, [.closed])
-
-def spec3Step (t : Spec3) : Ev → Spec3 × List Out
-  | .reconnect | .reconnectFast => ({ t with alive := true }, [.initEcho t.st])
-  | .msg m =>
-    let (t1, o1) := if t.alive then (t, []) else ({ t with alive := true }, [Out.initEcho t.st])
-    let (t2, o2) := spec3Msg t1 m
-    (t2, o1 ++ o2)
-
-def spec3Run (t : Spec3) : List Ev → Spec3 × List Out
-  | [] => (t, [])
-  | e :: es => let (t1, o) := spec3Step t e; let (t2, os) := spec3Run t1 es; (t2, o ++ os)
-
 /-! ### invariant of the sequential server -/
 
-/-- the three shapes the durable state can have, with the reference state they denote -/
+/-- the shapes the durable state can have, with the reference state they denote.  Besides the three
+    regular ones there are the folders an interrupted configuration upload leaves behind (`z…`): the
+    folder exists, `config.json` may or may not have been renamed into place, and `service_meta` is
+    missing or says 0 (written back by a later connection's cleanup).  All of them denote
+    "not configured". -/
 inductive Shape : Disk → Nat → Option Cfg → Option Edb → Prop where
   | fresh : Shape {} 0 none none
+  | z00 : Shape { dir := true, config := .absent, metaSt := .absent, edb := .absent } 0 none none
+  | z01 : Shape { dir := true, config := .absent, metaSt := .full 0, edb := .absent } 0 none none
+  | z10 (v : Cfg) : Shape { dir := true, config := .full v, metaSt := .absent, edb := .absent } 0 none none
+  | z11 (v : Cfg) : Shape { dir := true, config := .full v, metaSt := .full 0, edb := .absent } 0 none none
   | configured (cfg : Cfg) :
       Shape { dir := true, config := .full cfg, metaSt := .full 1, edb := .absent } 1 (some cfg) none
+  | configuredE (cfg : Cfg) (e : Edb) :   -- an index file was renamed into place but never acknowledged
+      Shape { dir := true, config := .full cfg, metaSt := .full 1, edb := .full e } 1 (some cfg) none
   | ready (cfg : Cfg) (e : Edb) :
       Shape { dir := true, config := .full cfg, metaSt := .full 2, edb := .full e } 2 (some cfg) (some e)
 
-/-- a `Service` object agrees with the durable state -/
+/-- a `Service` object agrees with the durable state (its in-memory configuration matters only once
+    the service is configured) -/
 def ConnOk (st : Nat) (cfg : Option Cfg) (edb : Option Edb) (c : Conn) : Prop :=
-  c.state = st ∧ c.memConfig = cfg ∧ (c.edbCache = none ∨ c.edbCache = edb)
+  c.state = st ∧ (st ≠ 0 → c.memConfig = cfg) ∧ (c.edbCache = none ∨ c.edbCache = edb)
 
 def Inv (s : SrvD) : Prop :=
   ∃ st cfg edb, Shape s.disk st cfg edb ∧ (∀ c, s.conn = some c → ConnOk st cfg edb c) ∧
     (s.alive = true → s.conn.isSome)
 
+def stOf (d : Disk) : Nat := match d.metaSt with | .full n => n | _ => 0
+
 def absS (s : SrvD) : Spec3 :=
-  { st := match s.disk.metaSt with | .full n => n | _ => 0,
-    cfg := match s.disk.config with | .full c => some c | _ => none,
-    edb := match s.disk.edb with | .full e => some e | _ => none,
+  { st := stOf s.disk,
+    cfg := if stOf s.disk = 0 then none else match s.disk.config with | .full c => some c | _ => none,
+    edb := if stOf s.disk ≤ 1 then none else match s.disk.edb with | .full e => some e | _ => none,
     alive := s.alive }
 
 end SSEPy.ServerIR
 
 namespace SSEPy.ServerIR
 
-/-! ### closed forms of the interpreter on the three shapes -/
-
-theorem construct_fresh : construct P {} = some ({ state := 0 }, [.initEcho 0]) := by rfl
-
-theorem construct_configured (cfg : Cfg) :
-    construct P { dir := true, config := .full cfg, metaSt := .full 1, edb := .absent }
-      = some ({ state := 1, memConfig := some cfg, moduleLoaded := true }, [.initEcho 1]) := by rfl
-
-theorem construct_ready (cfg : Cfg) (e : Edb) :
-    construct P { dir := true, config := .full cfg, metaSt := .full 2, edb := .full e }
-      = some ({ state := 2, memConfig := some cfg, moduleLoaded := true }, [.initEcho 2]) := by rfl
-
-/-- the cleanup's write-back of a consistent snapshot leaves the disk as it is -/
-theorem closeConn_id (d : Disk) (st : Nat) (cfg : Option Cfg) (edb : Option Edb) (c : Conn)
-    (hs : Shape d st cfg edb) (hc : c.state = st) : closeConn P d c = d := by
-  cases hs with
-  | fresh => rfl
-  | configured cfg => simp [closeConn, runEffs, P, expectedProgram, runFsWrite, tick, fileIdOf, hc]
-  | ready cfg e => simp [closeConn, runEffs, P, expectedProgram, runFsWrite, tick, fileIdOf, hc]
+/-! ### the interpreter on each shape -/
 
 /-- opening a connection on a well-shaped disk: the echo reports the durable state and the new object
     agrees with it -/
 theorem construct_shape (d : Disk) (st : Nat) (cfg : Option Cfg) (edb : Option Edb) (hs : Shape d st cfg edb) :
     ∃ c, construct P d = some (c, [.initEcho st]) ∧ ConnOk st cfg edb c := by
   cases hs with
-  | fresh => exact ⟨_, construct_fresh, rfl, rfl, Or.inl rfl⟩
-  | configured cfg => exact ⟨_, construct_configured cfg, rfl, rfl, Or.inl rfl⟩
-  | ready cfg e => exact ⟨_, construct_ready cfg e, rfl, rfl, Or.inl rfl⟩
+  | fresh => exact ⟨_, rfl, rfl, fun h => absurd rfl h, Or.inl rfl⟩
+  | z00 => exact ⟨_, rfl, rfl, fun h => absurd rfl h, Or.inl rfl⟩
+  | z01 => exact ⟨_, rfl, rfl, fun h => absurd rfl h, Or.inl rfl⟩
+  | z10 v => exact ⟨_, rfl, rfl, fun h => absurd rfl h, Or.inl rfl⟩
+  | z11 v => exact ⟨_, rfl, rfl, fun h => absurd rfl h, Or.inl rfl⟩
+  | configured cfg => exact ⟨_, rfl, rfl, fun _ => rfl, Or.inl rfl⟩
+  | configuredE cfg e => exact ⟨_, rfl, rfl, fun _ => rfl, Or.inl rfl⟩
+  | ready cfg e => exact ⟨_, rfl, rfl, fun _ => rfl, Or.inl rfl⟩
+
+/-- the cleanup's write-back of a consistent snapshot keeps the disk in a shape that denotes the same
+    reference state (on a half-created folder it adds a `service_meta` saying 0) -/
+theorem closeConn_shape (d : Disk) (st : Nat) (cfg : Option Cfg) (edb : Option Edb) (c : Conn)
+    (hs : Shape d st cfg edb) (hc : c.state = st) : Shape (closeConn P d c) st cfg edb := by
+  cases hs with
+  | fresh => exact .fresh
+  | z00 =>
+    have : closeConn P { dir := true, config := .absent, metaSt := .absent, edb := .absent } c
+        = { dir := true, config := .absent, metaSt := .full 0, edb := .absent } := by
+      simp [closeConn, runEffs, P, expectedProgram, runFsWrite, tick, fileIdOf, hc]
+    rw [this]; exact .z01
+  | z01 =>
+    have : closeConn P { dir := true, config := .absent, metaSt := .full 0, edb := .absent } c
+        = { dir := true, config := .absent, metaSt := .full 0, edb := .absent } := by
+      simp [closeConn, runEffs, P, expectedProgram, runFsWrite, tick, fileIdOf, hc]
+    rw [this]; exact .z01
+  | z10 v =>
+    have : closeConn P { dir := true, config := .full v, metaSt := .absent, edb := .absent } c
+        = { dir := true, config := .full v, metaSt := .full 0, edb := .absent } := by
+      simp [closeConn, runEffs, P, expectedProgram, runFsWrite, tick, fileIdOf, hc]
+    rw [this]; exact .z11 v
+  | z11 v =>
+    have : closeConn P { dir := true, config := .full v, metaSt := .full 0, edb := .absent } c
+        = { dir := true, config := .full v, metaSt := .full 0, edb := .absent } := by
+      simp [closeConn, runEffs, P, expectedProgram, runFsWrite, tick, fileIdOf, hc]
+    rw [this]; exact .z11 v
+  | configured cf =>
+    have : closeConn P { dir := true, config := .full cf, metaSt := .full 1, edb := .absent } c
+        = { dir := true, config := .full cf, metaSt := .full 1, edb := .absent } := by
+      simp [closeConn, runEffs, P, expectedProgram, runFsWrite, tick, fileIdOf, hc]
+    rw [this]; exact .configured cf
+  | configuredE cf e =>
+    have : closeConn P { dir := true, config := .full cf, metaSt := .full 1, edb := .full e } c
+        = { dir := true, config := .full cf, metaSt := .full 1, edb := .full e } := by
+      simp [closeConn, runEffs, P, expectedProgram, runFsWrite, tick, fileIdOf, hc]
+    rw [this]; exact .configuredE cf e
+  | ready cf e =>
+    have : closeConn P { dir := true, config := .full cf, metaSt := .full 2, edb := .full e } c
+        = { dir := true, config := .full cf, metaSt := .full 2, edb := .full e } := by
+      simp [closeConn, runEffs, P, expectedProgram, runFsWrite, tick, fileIdOf, hc]
+    rw [this]; exact .ready cf e
 
 theorem handleMsg_refines (d : Disk) (st : Nat) (cfg : Option Cfg) (edb : Option Edb) (c : Conn) (m : Msg)
     (hs : Shape d st cfg edb) (hc : ConnOk st cfg edb c) :
@@ -138,46 +141,55 @@ theorem handleMsg_refines (d : Disk) (st : Nat) (cfg : Option Cfg) (edb : Option
   obtain ⟨cst, cmc, cml, csl, cec⟩ := c
   obtain ⟨h1, h2, h3⟩ := hc
   simp only at h1 h2 h3
-  subst h1 h2
+  subst h1
+  have ok0 : ∀ mc, ConnOk 0 none none ⟨0, mc, cml, csl, none⟩ := fun mc => ⟨rfl, fun h => absurd rfl h, Or.inl rfl⟩
   cases hs with
-  | fresh =>
+  | fresh | z00 | z01 | z10 _ | z11 _ =>
     have hec : cec = none := by rcases h3 with h | h <;> exact h
     subst hec
     cases m with
     | config co =>
       cases co with
-      | none => exact ⟨0, none, none, .fresh, ⟨rfl, rfl, Or.inl rfl⟩, rfl, rfl⟩
-      | some v => exact ⟨1, some v, none, .configured v, ⟨rfl, rfl, Or.inl rfl⟩, rfl, rfl⟩
-    | upload e => exact ⟨0, none, none, .fresh, ⟨rfl, rfl, Or.inl rfl⟩, rfl, rfl⟩
-    | search t => exact ⟨0, none, none, .fresh, ⟨rfl, rfl, Or.inl rfl⟩, rfl, rfl⟩
-    | foreignSid => exact ⟨0, none, none, .fresh, ⟨rfl, rfl, Or.inl rfl⟩, rfl, rfl⟩
-    | noType => exact ⟨0, none, none, .fresh, ⟨rfl, rfl, Or.inl rfl⟩, rfl, rfl⟩
-    | noSid => exact ⟨0, none, none, .fresh, ⟨rfl, rfl, Or.inl rfl⟩, rfl, rfl⟩
-    | unknownType => exact ⟨0, none, none, .fresh, ⟨rfl, rfl, Or.inl rfl⟩, rfl, rfl⟩
+      | none => first
+        | exact ⟨0, none, none, .fresh, ok0 _, rfl, rfl⟩
+        | exact ⟨0, none, none, .z00, ok0 _, rfl, rfl⟩
+        | exact ⟨0, none, none, .z01, ok0 _, rfl, rfl⟩
+        | exact ⟨0, none, none, .z10 _, ok0 _, rfl, rfl⟩
+        | exact ⟨0, none, none, .z11 _, ok0 _, rfl, rfl⟩
+      | some v => exact ⟨1, some v, none, .configured v, ⟨rfl, fun _ => rfl, Or.inl rfl⟩, rfl, rfl⟩
+    | upload _ | search _ | foreignSid | noType | noSid | unknownType => first
+      | exact ⟨0, none, none, .fresh, ok0 _, rfl, rfl⟩
+      | exact ⟨0, none, none, .z00, ok0 _, rfl, rfl⟩
+      | exact ⟨0, none, none, .z01, ok0 _, rfl, rfl⟩
+      | exact ⟨0, none, none, .z10 _, ok0 _, rfl, rfl⟩
+      | exact ⟨0, none, none, .z11 _, ok0 _, rfl, rfl⟩
   | configured cf =>
+    have hmc : cmc = some cf := h2 (by decide)
+    subst hmc
     have hec : cec = none := by rcases h3 with h | h <;> exact h
     subst hec
     cases m with
-    | config co => exact ⟨1, some cf, none, .configured cf, ⟨rfl, rfl, Or.inl rfl⟩, rfl, rfl⟩
-    | upload e => exact ⟨2, some cf, some e, .ready cf e, ⟨rfl, rfl, Or.inl rfl⟩, rfl, rfl⟩
-    | search t => exact ⟨1, some cf, none, .configured cf, ⟨rfl, rfl, Or.inl rfl⟩, rfl, rfl⟩
-    | foreignSid => exact ⟨1, some cf, none, .configured cf, ⟨rfl, rfl, Or.inl rfl⟩, rfl, rfl⟩
-    | noType => exact ⟨1, some cf, none, .configured cf, ⟨rfl, rfl, Or.inl rfl⟩, rfl, rfl⟩
-    | noSid => exact ⟨1, some cf, none, .configured cf, ⟨rfl, rfl, Or.inl rfl⟩, rfl, rfl⟩
-    | unknownType => exact ⟨1, some cf, none, .configured cf, ⟨rfl, rfl, Or.inl rfl⟩, rfl, rfl⟩
-  | ready cf e =>
+    | upload e => exact ⟨2, some cf, some e, .ready cf e, ⟨rfl, fun _ => rfl, Or.inl rfl⟩, rfl, rfl⟩
+    | config _ | search _ | foreignSid | noType | noSid | unknownType =>
+      exact ⟨1, some cf, none, .configured cf, ⟨rfl, fun _ => rfl, Or.inl rfl⟩, rfl, rfl⟩
+  | configuredE cf e0 =>
+    have hmc : cmc = some cf := h2 (by decide)
+    subst hmc
+    have hec : cec = none := by rcases h3 with h | h <;> exact h
+    subst hec
     cases m with
-    | config co => exact ⟨2, some cf, some e, .ready cf e, ⟨rfl, rfl, h3⟩, rfl, rfl⟩
-    | upload e' => exact ⟨2, some cf, some e, .ready cf e, ⟨rfl, rfl, h3⟩, rfl, rfl⟩
+    | upload e => exact ⟨2, some cf, some e, .ready cf e, ⟨rfl, fun _ => rfl, Or.inl rfl⟩, rfl, rfl⟩
+    | config _ | search _ | foreignSid | noType | noSid | unknownType =>
+      exact ⟨1, some cf, none, .configuredE cf e0, ⟨rfl, fun _ => rfl, Or.inl rfl⟩, rfl, rfl⟩
+  | ready cf e =>
+    have hmc : cmc = some cf := h2 (by decide)
+    subst hmc
+    cases m with
     | search t =>
-      rcases h3 with h | h <;> subst h <;> cases t with
-      | none => exact ⟨2, some cf, some e, .ready cf e, ⟨rfl, rfl, Or.inr rfl⟩, rfl, rfl⟩
-      | some k => exact ⟨2, some cf, some e, .ready cf e, ⟨rfl, rfl, Or.inr rfl⟩, rfl, rfl⟩
-    | foreignSid => exact ⟨2, some cf, some e, .ready cf e, ⟨rfl, rfl, h3⟩, rfl, rfl⟩
-    | noType => exact ⟨2, some cf, some e, .ready cf e, ⟨rfl, rfl, h3⟩, rfl, rfl⟩
-    | noSid => exact ⟨2, some cf, some e, .ready cf e, ⟨rfl, rfl, h3⟩, rfl, rfl⟩
-    | unknownType => exact ⟨2, some cf, some e, .ready cf e, ⟨rfl, rfl, h3⟩, rfl, rfl⟩
-
+      rcases h3 with h | h <;> subst h <;> cases t <;>
+        exact ⟨2, some cf, some e, .ready cf e, ⟨rfl, fun _ => rfl, Or.inr rfl⟩, rfl, rfl⟩
+    | config _ | upload _ | foreignSid | noType | noSid | unknownType =>
+      exact ⟨2, some cf, some e, .ready cf e, ⟨rfl, fun _ => rfl, h3⟩, rfl, rfl⟩
 
 theorem absS_of_shape (s : SrvD) (st : Nat) (cfg : Option Cfg) (edb : Option Edb) (h : Shape s.disk st cfg edb) :
     absS s = { st := st, cfg := cfg, edb := edb, alive := s.alive } := by
@@ -186,28 +198,41 @@ theorem absS_of_shape (s : SrvD) (st : Nat) (cfg : Option Cfg) (edb : Option Edb
   rw [h'] at h
   cases h <;> rfl
 
-theorem cleanupDisk_id (s : SrvD) (st : Nat) (cfg : Option Cfg) (edb : Option Edb)
-    (hs : Shape s.disk st cfg edb) (hc : ∀ c, s.conn = some c → ConnOk st cfg edb c) : cleanupDisk P s = s.disk := by
+theorem cleanupDisk_shape (s : SrvD) (st : Nat) (cfg : Option Cfg) (edb : Option Edb)
+    (hs : Shape s.disk st cfg edb) (hc : ∀ c, s.conn = some c → ConnOk st cfg edb c) :
+    Shape (cleanupDisk P s) st cfg edb := by
   unfold cleanupDisk
   cases hconn : s.conn with
-  | none => rfl
-  | some old => exact closeConn_id s.disk st cfg edb old hs (hc old hconn).1
+  | none => exact hs
+  | some old => exact closeConn_shape s.disk st cfg edb old hs (hc old hconn).1
 
-/-- (re)connecting on a consistent state, in either order relative to the old connection's cleanup -/
-theorem reconnect_refines (s : SrvD) (hinv : Inv s) :
-    ∃ c, reconnectSlow P s = ({ disk := s.disk, conn := some c, alive := true }, [.initEcho (absS s).st]) ∧
-      reconnectFast P s = reconnectSlow P s ∧
-      Inv { disk := s.disk, conn := some c, alive := true } ∧
-      absS { disk := s.disk, conn := some c, alive := true } = { absS s with alive := true } := by
+/-- connecting when the disk read by the constructor and the disk left afterwards both denote the
+    same reference state -/
+theorem connectOn_refines (dRead dAfter : Disk) (st : Nat) (cfg : Option Cfg) (edb : Option Edb)
+    (h1 : Shape dRead st cfg edb) (h2 : Shape dAfter st cfg edb) :
+    ∃ c, connectOn P dRead dAfter = ({ disk := dAfter, conn := some c, alive := true }, [.initEcho st]) ∧
+      Inv { disk := dAfter, conn := some c, alive := true } := by
+  obtain ⟨c, hcons, hcok⟩ := construct_shape dRead st cfg edb h1
+  refine ⟨c, by simp [connectOn, hcons], st, cfg, edb, h2, ?_, fun _ => rfl⟩
+  intro c' hc'; cases hc'; exact hcok
+
+/-- (re)connecting on a consistent state, after or before the old connection's cleanup -/
+theorem reconnect_refines (s : SrvD) (hinv : Inv s) (fast : Bool) :
+    ∃ s', (if fast then reconnectFast P s else reconnectSlow P s) = (s', [.initEcho (absS s).st]) ∧
+      Inv s' ∧ s'.alive = true ∧ s'.conn.isSome ∧ absS s' = { absS s with alive := true } := by
   obtain ⟨st, cfg, edb, hs, hc, ha⟩ := hinv
   have habs := absS_of_shape s st cfg edb hs
-  obtain ⟨c, hcons, hcok⟩ := construct_shape s.disk st cfg edb hs
-  have hclose := cleanupDisk_id s st cfg edb hs hc
-  refine ⟨c, ?_, ?_, ⟨st, cfg, edb, hs, ?_, fun _ => rfl⟩, ?_⟩
-  · simp [reconnectSlow, connectOn, hclose, hcons, habs]
-  · simp [reconnectSlow, reconnectFast, hclose]
-  · intro c' hc'; cases hc'; exact hcok
-  · rw [absS_of_shape ({ disk := s.disk, conn := some c, alive := true } : SrvD) st cfg edb hs, habs]
+  have hcl := cleanupDisk_shape s st cfg edb hs hc
+  have fin : ∀ (dRead : Disk), Shape dRead st cfg edb →
+      ∃ s', connectOn P dRead (cleanupDisk P s) = (s', [.initEcho (absS s).st]) ∧
+        Inv s' ∧ s'.alive = true ∧ s'.conn.isSome ∧ absS s' = { absS s with alive := true } := by
+    intro dRead hR
+    obtain ⟨c, hco, hinv'⟩ := connectOn_refines dRead (cleanupDisk P s) st cfg edb hR hcl
+    refine ⟨_, by rw [hco, habs], hinv', rfl, rfl, ?_⟩
+    rw [absS_of_shape (⟨cleanupDisk P s, some c, true⟩ : SrvD) st cfg edb hcl, habs]
+  cases fast with
+  | false => simpa [reconnectSlow] using fin _ hcl
+  | true => simpa [reconnectFast] using fin _ hs
 
 theorem msg_refines (s1 : SrvD) (c : Conn) (m : Msg) (hinv1 : Inv s1) (hconn : s1.conn = some c) :
     Inv { disk := (handleMsg P s1.disk c m).1, conn := some (handleMsg P s1.disk c m).2.1,
@@ -231,14 +256,17 @@ theorem msg_refines (s1 : SrvD) (c : Conn) (m : Msg) (hinv1 : Inv s1) (hconn : s
 theorem step_refines (s : SrvD) (hinv : Inv s) (ev : Ev) :
     Inv (stepEv P s ev).1 ∧ (stepEv P s ev).2 = (spec3Step (absS s) ev).2 ∧
       absS (stepEv P s ev).1 = (spec3Step (absS s) ev).1 := by
-  obtain ⟨c0, hslow, hfast, hinv0, habs0⟩ := reconnect_refines s hinv
   cases ev with
   | reconnect =>
-    simp only [stepEv, hslow, spec3Step]
-    exact ⟨hinv0, (by first | rfl | trivial), habs0⟩
+    obtain ⟨s', h, hi, _, _, ha⟩ := reconnect_refines s hinv false
+    simp only [Bool.false_eq_true, ↓reduceIte] at h
+    simp only [stepEv, h, spec3Step]
+    exact ⟨hi, (by first | rfl | trivial), ha⟩
   | reconnectFast =>
-    simp only [stepEv, hfast, hslow, spec3Step]
-    exact ⟨hinv0, (by first | rfl | trivial), habs0⟩
+    obtain ⟨s', h, hi, _, _, ha⟩ := reconnect_refines s hinv true
+    simp only [↓reduceIte] at h
+    simp only [stepEv, h, spec3Step]
+    exact ⟨hi, (by first | rfl | trivial), ha⟩
   | msg m =>
     by_cases halive : s.alive = true
     · obtain ⟨st, cfg, edb, hs, hc, ha⟩ := hinv
@@ -250,14 +278,17 @@ theorem step_refines (s : SrvD) (hinv : Inv s) (ev : Ev) :
       simp only [stepEv, halive, ↓reduceIte, hconn, List.nil_append, spec3Step, hal]
       exact h
     · have hdead : s.alive = false := by simpa using halive
-      have h := msg_refines { disk := s.disk, conn := some c0, alive := true } c0 m hinv0 rfl
-      rw [habs0] at h
+      obtain ⟨s', hre, hi, hal', hsome, habs'⟩ := reconnect_refines s hinv false
+      simp only [Bool.false_eq_true, ↓reduceIte] at hre
+      obtain ⟨c0, hc0⟩ := Option.isSome_iff_exists.mp hsome
+      have h := msg_refines s' c0 m hi hc0
+      rw [habs'] at h
       have hal : (absS s).alive = false := by simp [absS, hdead]
-      simp only [stepEv, hdead, Bool.false_eq_true, ↓reduceIte, hslow, spec3Step, hal]
+      simp only [stepEv, hdead, Bool.false_eq_true, ↓reduceIte, hre, hc0, hal', spec3Step, hal]
       refine ⟨h.1, ?_, h.2.2⟩
       rw [h.2.1]
 
-/-- every history of events on one service id, from the empty disk -/
+/-- every history of events on one service id, from any consistent state -/
 theorem run_refines (evs : List Ev) : ∀ (s : SrvD), Inv s →
     Inv (runEvs P s evs).1 ∧ (runEvs P s evs).2 = (spec3Run (absS s) evs).2 ∧
       absS (runEvs P s evs).1 = (spec3Run (absS s) evs).1 := by
@@ -275,5 +306,128 @@ theorem inv_init : Inv {} := by
   refine ⟨0, none, none, .fresh, ?_, ?_⟩
   · intro c h; cases h
   · intro h; cases h
+
+
+/-! ### crash prefixes (C13): the server dies after `k` file-system mutations of a handler -/
+
+/-- storing a configuration, interrupted anywhere: the disk denotes the state before or the state after -/
+theorem crash_config (d : Disk) (st : Nat) (cfg : Option Cfg) (edb : Option Edb) (hs : Shape d st cfg edb)
+    (c : Conn) (hc : ConnOk st cfg edb c) (v : Cfg) (k : Nat) :
+    Shape (handleMsg P d c (.config (some v)) (some k)).1 st cfg edb ∨
+    Shape (handleMsg P d c (.config (some v)) (some k)).1 1 (some v) none := by
+  obtain ⟨cst, cmc, cml, csl, cec⟩ := c
+  obtain ⟨h1, h2, h3⟩ := hc
+  simp only at h1 h2 h3
+  subst h1
+  cases hs with
+  | fresh =>
+    rcases k with _|_|_|_|_|_|_|k
+    · exact Or.inl .fresh
+    · exact Or.inl .z00
+    · exact Or.inl .z00
+    · exact Or.inl .z00
+    · exact Or.inl (.z10 v)
+    · exact Or.inl (.z10 v)
+    · exact Or.inl (.z10 v)
+    · exact Or.inr (.configured v)
+  | z00 =>
+    rcases k with _|_|_|_|_|_|k
+    · exact Or.inl .z00
+    · exact Or.inl .z00
+    · exact Or.inl .z00
+    · exact Or.inl (.z10 v)
+    · exact Or.inl (.z10 v)
+    · exact Or.inl (.z10 v)
+    · exact Or.inr (.configured v)
+  | z01 =>
+    rcases k with _|_|_|_|_|_|k
+    · exact Or.inl .z01
+    · exact Or.inl .z01
+    · exact Or.inl .z01
+    · exact Or.inl (.z11 v)
+    · exact Or.inl (.z11 v)
+    · exact Or.inl (.z11 v)
+    · exact Or.inr (.configured v)
+  | z10 w =>
+    rcases k with _|_|_|_|_|_|k
+    · exact Or.inl (.z10 w)
+    · exact Or.inl (.z10 w)
+    · exact Or.inl (.z10 w)
+    · exact Or.inl (.z10 v)
+    · exact Or.inl (.z10 v)
+    · exact Or.inl (.z10 v)
+    · exact Or.inr (.configured v)
+  | z11 w =>
+    rcases k with _|_|_|_|_|_|k
+    · exact Or.inl (.z11 w)
+    · exact Or.inl (.z11 w)
+    · exact Or.inl (.z11 w)
+    · exact Or.inl (.z11 v)
+    · exact Or.inl (.z11 v)
+    · exact Or.inl (.z11 v)
+    · exact Or.inr (.configured v)
+  | configured cf => exact Or.inl (.configured cf)
+  | configuredE cf e => exact Or.inl (.configuredE cf e)
+  | ready cf e => exact Or.inl (.ready cf e)
+
+/-- storing an index, interrupted anywhere: the disk denotes the state before or the state after -/
+theorem crash_upload (d : Disk) (st : Nat) (cfg : Option Cfg) (edb : Option Edb) (hs : Shape d st cfg edb)
+    (c : Conn) (hc : ConnOk st cfg edb c) (e : Edb) (k : Nat) :
+    Shape (handleMsg P d c (.upload e) (some k)).1 st cfg edb ∨
+    (∃ cf, cfg = some cf ∧ Shape (handleMsg P d c (.upload e) (some k)).1 2 (some cf) (some e)) := by
+  obtain ⟨cst, cmc, cml, csl, cec⟩ := c
+  obtain ⟨h1, h2, h3⟩ := hc
+  simp only at h1 h2 h3
+  subst h1
+  cases hs with
+  | fresh => exact Or.inl .fresh
+  | z00 => exact Or.inl .z00
+  | z01 => exact Or.inl .z01
+  | z10 w => exact Or.inl (.z10 w)
+  | z11 w => exact Or.inl (.z11 w)
+  | configured cf =>
+    rcases k with _|_|_|_|_|_|k
+    · exact Or.inl (.configured cf)
+    · exact Or.inl (.configured cf)
+    · exact Or.inl (.configured cf)
+    · exact Or.inl (.configuredE cf e)
+    · exact Or.inl (.configuredE cf e)
+    · exact Or.inl (.configuredE cf e)
+    · exact Or.inr ⟨cf, rfl, .ready cf e⟩
+  | configuredE cf e0 =>
+    rcases k with _|_|_|_|_|_|k
+    · exact Or.inl (.configuredE cf e0)
+    · exact Or.inl (.configuredE cf e0)
+    · exact Or.inl (.configuredE cf e0)
+    · exact Or.inl (.configuredE cf e)
+    · exact Or.inl (.configuredE cf e)
+    · exact Or.inl (.configuredE cf e)
+    · exact Or.inr ⟨cf, rfl, .ready cf e⟩
+  | ready cf e0 => exact Or.inl (.ready cf e0)
+
+/-- requests that store nothing perform no file-system mutation: a crash budget is irrelevant -/
+theorem crash_other (d : Disk) (c : Conn) (m : Msg) (k : Nat)
+    (hm : ∀ v, m ≠ .config v) (hu : ∀ e, m ≠ .upload e) :
+    (handleMsg P d c m (some k)).1 = d := by
+  cases m with
+  | config v => exact absurd rfl (hm v)
+  | upload e => exact absurd rfl (hu e)
+  | search t =>
+    obtain ⟨cst, cmc, cml, csl, cec⟩ := c
+    rcases cst with _|_|cst
+    · rfl
+    · rfl
+    · cases cmc with
+      | none => rfl
+      | some mc =>
+        cases cec with
+        | some ec => cases t <;> rfl
+        | none =>
+          obtain ⟨dd, dc, dm, de⟩ := d
+          cases de <;> cases t <;> rfl
+  | foreignSid => rfl
+  | noType => rfl
+  | noSid => rfl
+  | unknownType => rfl
 
 end SSEPy.ServerIR
